@@ -12,6 +12,7 @@ ORIGIN = {
     3: "independent sub-agent given only the property text and its own worktree of /repo (round 3: outputs and inputs outside the "
        "usual generators' reach: marker values as data, shared objects, long lists, names that collide with option fields)",
     4: "independent sub-agent given only the property text and its own worktree of /repo (round 4: order of operations, shared helpers, numeric / length boundaries, text that is syntax of another layer, last items, swallowed exceptions)",
+    7: "independent sub-agent given only the property text and its own worktree of /repo (round 7: after the audits; three-way interactions, second occurrences, returned values, order of two legal operations)",
     6: "independent sub-agent given only the property text and its own worktree of /repo (round 6: interactions of three things, second occurrences, error paths returning plausible values, return values, value-kind specific differences between equivalent spellings)",
     5: "independent sub-agent given only the property text and its own worktree of /repo (round 5: histories, n0 vs plain nodes inside one tree, is/== confusions, return values, exception classes, falsy-but-present values)",
 }
